@@ -196,6 +196,27 @@ impl Session<JunosLocal> {
     }
 }
 
+/// Verification hook (compiled only with `--cfg bgpfu_verif`): `Session::new` is private.
+#[cfg(bgpfu_verif)]
+impl<T: Transport> Session<T> {
+    /// Establish a session over an arbitrary, caller-supplied transport.
+    #[allow(clippy::missing_errors_doc)]
+    pub async fn verif_new(transport: T) -> Result<Self, Error> {
+        Self::new(transport).await
+    }
+}
+
+/// Verification hook (compiled only with `--cfg bgpfu_verif`): the CLI path is hard-coded.
+#[cfg(all(bgpfu_verif, feature = "junos"))]
+impl Session<JunosLocal> {
+    /// Establish a session via a caller-supplied stand-in for the local Junos `cli` binary.
+    #[allow(clippy::missing_errors_doc)]
+    pub async fn verif_junos_local(cli_path: &str, cli_args: &[&str]) -> Result<Self, Error> {
+        let transport = JunosLocal::verif_connect(cli_path, cli_args).await?;
+        Self::new(transport).await
+    }
+}
+
 impl<T: Transport> Session<T> {
     #[tracing::instrument(skip(transport), level = "trace")]
     async fn new(transport: T) -> Result<Self, Error> {
